@@ -139,17 +139,21 @@ variant('entropy', 'entropy_rdrand', scale=0.5, extra_cflags=['-DSIM_RDRAND'], c
 # assertions compiled out (-DNDEBUG): a side effect hidden inside assert() disappears, an argument check no longer aborts
 variant('secrets', 'secrets_nd', extra_cflags=['-DNDEBUG'], props=['C19', 'C20'], note='[build: -DNDEBUG]')
 variant('entropy', 'entropy_nd', extra_cflags=['-DNDEBUG'], props=['C10', 'C11', 'C20'], note='[build: -DNDEBUG]')
+variant('evloop', 'evloop_nd', extra_cflags=['-DNDEBUG'], props=['C04', 'C05'], note='[build: -DNDEBUG]')
+variant('netio', 'netio_nd', extra_cflags=['-DNDEBUG'], props=['C06', 'C07'], note='[build: -DNDEBUG]')
+variant('http', 'http_nd', extra_cflags=['-DNDEBUG'], props=['C08', 'C09'], note='[build: -DNDEBUG]')
+variant('containers', 'containers_nd', extra_cflags=['-DNDEBUG'], props=['C12', 'C13'], note='[build: -DNDEBUG]')
 # the documented workaround for platforms without MSG_NOSIGNAL (SIGPIPE ignored around send)
 variant('netio', 'netio_pf', extra_cflags=['-DPOSIXFAIL_MSG_NOSIGNAL'], props=['C06', 'C07'],
         note='[build: -DPOSIXFAIL_MSG_NOSIGNAL]')
 
 # property -> engines whose runs decide it
 PROP_ENGINES = {
-    'C04': ['evloop'], 'C05': ['evloop'],
-    'C06': ['netio', 'netio_pf'], 'C07': ['netio', 'netio_pf'],
-    'C08': ['http'], 'C09': ['http'],
+    'C04': ['evloop', 'evloop_nd'], 'C05': ['evloop', 'evloop_nd'],
+    'C06': ['netio', 'netio_pf', 'netio_nd'], 'C07': ['netio', 'netio_pf', 'netio_nd'],
+    'C08': ['http', 'http_nd'], 'C09': ['http', 'http_nd'],
     'C10': ['entropy', 'entropy_nd'], 'C11': ['entropy', 'entropy_nd', 'entropy_sse2', 'entropy_rdrand'],
-    'C12': ['containers'], 'C13': ['containers'],
+    'C12': ['containers', 'containers_nd'], 'C13': ['containers', 'containers_nd'],
     'C14': ['containers', 'evloop', 'netio', 'http'],
     'C19': ['secrets', 'secrets_sse2', 'secrets_shani', 'secrets_nd'],
     'C20': ['secrets', 'secrets_hw', 'secrets_o2', 'secrets_sse2', 'secrets_shani', 'secrets_nd', 'entropy',
